@@ -12,6 +12,7 @@ import (
 	"strings"
 	"sync"
 	"sync/atomic"
+	"time"
 
 	"github.com/hashicorp/go-hclog"
 
@@ -22,6 +23,7 @@ import (
 	"github.com/hashicorp/consul/agent/structs"
 	"github.com/hashicorp/consul/agent/token"
 	"github.com/hashicorp/consul/internal/verifmc/ev"
+	"github.com/hashicorp/consul/internal/verifmc/vtimer"
 	"github.com/hashicorp/consul/internal/verifmc/world"
 	"github.com/hashicorp/consul/types"
 )
@@ -42,8 +44,10 @@ const (
 	fACLNotFound
 )
 
-func (k faultKind) String() string { return [...]string{"rpc-error", "permission-denied", "acl-not-found"}[k] }
-func (k faultKind) acl() bool      { return k != fGeneric }
+func (k faultKind) String() string {
+	return [...]string{"rpc-error", "permission-denied", "acl-not-found"}[k]
+}
+func (k faultKind) acl() bool { return k != fGeneric }
 func (k faultKind) err() error {
 	switch k {
 	case fPermDenied:
@@ -64,7 +68,7 @@ type fault struct {
 type delegate struct {
 	w      *world.World
 	faults map[string]faultKind
-	calls  []string          // identities called, in order
+	calls  []string             // identities called, in order
 	hit    map[string]faultKind // faults that actually fired
 }
 
@@ -197,13 +201,15 @@ type sys struct {
 	ownedTags map[string][]string
 }
 
-func newSys() *sys {
+func newSys() *sys { return newSysInterval(0) }
+
+func newSysInterval(checkUpdateInterval time.Duration) *sys {
 	w := world.New()
 	d := &delegate{w: w, faults: map[string]faultKind{}, hit: map[string]faultKind{}}
 	tok := new(token.Store)
 	tok.UpdateAgentToken("agent-token", token.TokenSourceConfig)
 	l := local.NewState(local.Config{AdvertiseAddr: "10.0.0.1", Datacenter: dcName, NodeID: types.NodeID(nodeID), NodeName: node,
-		TaggedAddresses: map[string]string{"lan": "10.0.0.1"}}, hclog.NewNullLogger(), tok)
+		CheckUpdateInterval: checkUpdateInterval, TaggedAddresses: map[string]string{"lan": "10.0.0.1"}}, hclog.NewNullLogger(), tok)
 	l.Delegate = d
 	l.TriggerSyncChanges = func() {}
 	return &sys{l: l, d: d, removedSvc: map[string]bool{}, removedChk: map[string]bool{}, ownedTags: map[string][]string{}}
@@ -698,7 +704,87 @@ func containsCheck(ident, id string) bool {
 	return false
 }
 
+// ---- deferred check output (check_update_interval > 0): timers are fired by the harness -------------------------
+
+// deferPhase: output-only updates of a check are not synced at once: a timer marks the check out of sync
+// later. Every sequence of updates, timer firings and syncs must end, once every timer has fired and a
+// full sync ran, with the catalog holding the check's current status and output.
+func deferPhase(c *ev.Ctx) {
+	type dop struct {
+		name string
+		run  func(s *sys)
+	}
+	ops := []dop{
+		{"update c1 output=o1 (same status)", func(s *sys) { s.l.UpdateCheck(cid("c1"), "passing", "o1") }},
+		{"update c1 output=o2 (same status)", func(s *sys) { s.l.UpdateCheck(cid("c1"), "passing", "o2") }},
+		{"update c1 critical", func(s *sys) { s.l.UpdateCheck(cid("c1"), "critical", "boom") }},
+		{"update c2 output=n1 (same status)", func(s *sys) { s.l.UpdateCheck(cid("c2"), "passing", "n1") }},
+		{"fire the oldest armed timer", func(s *sys) { vtimer.Fire(0) }},
+		{"fire the newest armed timer", func(s *sys) {
+			if n := vtimer.Armed(); n > 0 {
+				vtimer.Fire(n - 1)
+			}
+		}},
+		{"SyncChanges", func(s *sys) { _ = s.l.SyncChanges() }},
+		{"SyncFull", func(s *sys) { _ = s.l.SyncFull() }},
+	}
+	depth := 4
+	if !c.Quick() {
+		depth = 5
+	}
+	var runs int64
+	var rec func(path []int)
+	rec = func(path []int) {
+		if len(path) > 0 {
+			runs++
+			vtimer.ResetTimers()
+			s := newSysInterval(time.Minute)
+			s.addSvc(svc("s1", 80), "", chk("c1", "s1", "passing"))
+			s.l.AddCheck(chk("c2", "", "passing"), "", false)
+			if err := s.l.SyncFull(); err != nil {
+				panic(err)
+			}
+			var hist []string
+			for _, i := range path {
+				hist = append(hist, ops[i].name)
+				ops[i].run(s)
+			}
+			// quiescence: every timer fires, then the syncs a running agent performs
+			for guard := 0; vtimer.Armed() > 0 && guard < 20; guard++ {
+				vtimer.Fire(0)
+			}
+			_ = s.l.SyncChanges()
+			for guard := 0; vtimer.Armed() > 0 && guard < 20; guard++ {
+				vtimer.Fire(0)
+			}
+			if err := s.l.SyncFull(); err != nil {
+				c.Violate("C16:clean-full-sync-fails:deferred-output", err.Error(), map[string]any{"history": hist})
+				return
+			}
+			_, cchk := s.catalog()
+			_, lchk := s.localView()
+			if d := mapDiff("check", lchk, cchk); len(d) > 0 {
+				c.Violate("C16:deferred-check-output-never-reaches-the-catalog", fmt.Sprintf("after every deferral timer fired and a clean full sync: %s\nhistory: %s", strings.Join(d, "; "), strings.Join(hist, " ; ")), map[string]any{"history": hist})
+			}
+		}
+		if len(path) == depth || c.NumViolations() > 20 {
+			return
+		}
+		for i := range ops {
+			// two syncs or two firings in a row add nothing
+			if len(path) > 0 && i >= 4 && path[len(path)-1] == i {
+				continue
+			}
+			rec(append(append([]int{}, path...), i))
+		}
+	}
+	rec(nil)
+	vtimer.ResetTimers()
+	c.Set("deferred_output_histories", runs)
+}
+
 func Run(c *ev.Ctx) {
+	deferPhase(c)
 	alpha := alphabet()
 	quick := c.Quick()
 	depth, maxFaults := 2, 2
